@@ -35,9 +35,9 @@ DefaultFlow == "DEFAULT_FLOW"
 \* obs: the registered (observer, variable) pairs; async: a time-limited continue has been started and not finished
 Init == [m |-> S!Start, cur |-> DefaultFlow, others |-> <<>>, slots |-> <<>>, obs |-> <<>>, async |-> FALSE]
 
-FlowOf(m) == [th |-> m.th, out |-> m.out, ch |-> m.ch, st |-> m.st, safe |-> m.safe]
-WithFlow(m, f) == [m EXCEPT !.th = f.th, !.out = f.out, !.ch = f.ch, !.st = f.st, !.safe = f.safe]
-NewFlow == [th |-> << <<S!Act("root", Prog.root)>> >>, out |-> <<>>, ch |-> <<>>, st |-> "run", safe |-> FALSE]
+FlowOf(m) == [th |-> m.th, out |-> m.out, ch |-> m.ch, st |-> m.st, safe |-> m.safe, last |-> m.last]
+WithFlow(m, f) == [m EXCEPT !.th = f.th, !.out = f.out, !.ch = f.ch, !.st = f.st, !.safe = f.safe, !.last = f.last]
+NewFlow == [th |-> << <<S!Act("root", Prog.root)>> >>, out |-> <<>>, ch |-> <<>>, st |-> "run", safe |-> FALSE, last |-> <<>>]
 Alive(h) == {h.cur} \cup DOMAIN h.others
 
 Ok(h) == [h |-> h, res |-> "ok"]
@@ -64,8 +64,11 @@ ChoosePath(h, target, reset) ==
   IF ~S!IsKnot(target) \/ S!Knot(target).kind # "knot" THEN Refused(h)
   ELSE LET m == h.m
            \* (the turn index advances first: the containers entered are stamped with the new turn)
-           base == [m EXCEPT !.th = IF reset THEN S!Fresh ELSE m.th, !.ch = <<>>, !.st = "run", !.turn = m.turn + 1, !.safe = FALSE]
-           m1 == S!Enter(base, target)
+           base == [m EXCEPT !.th = IF reset THEN S!Fresh ELSE m.th, !.ch = <<>>, !.st = "run", !.turn = m.turn + 1, !.safe = FALSE,
+                             !.last = IF reset THEN <<>> ELSE m.last]
+           \* where the jump comes from is where the story last EXECUTED something - not where an earlier jump, not yet
+           \* continued from, has put it: two jumps in a row into the same knot count it twice
+           m1 == S!VisitAll(base, S!Knot(target).chain, base.last)
            a == S!CurAct(m1) IN
        IF ~reset /\ S!CurAct(m).kind = "fn" THEN Refused(h)
        ELSE Ok([h EXCEPT !.m = S!SetAct(m1, [a EXCEPT !.fr = <<S!Frame(S!Knot(target).body)>>])])
@@ -143,12 +146,14 @@ EvalBegin(h, f, args) ==
            m == h.m
            m1 == [m EXCEPT !.out = <<>>, !.st = "run", !.safe = FALSE, !.ret = [t |-> "void"],
                            !.th = << <<act>> \o Head(m.th) >> \o Tail(m.th)] IN
-       [h |-> [h EXCEPT !.m = m1], res |-> "ok", saved |-> [out |-> m.out, st |-> m.st, safe |-> m.safe]]
+       [h |-> [h EXCEPT !.m = m1], res |-> "ok", saved |-> [out |-> m.out, st |-> m.st, safe |-> m.safe, last |-> m.last]]
 
 EvalEnd(h, saved) ==
   LET m == h.m
       t == Head(m.th) IN
-  [h EXCEPT !.m = [m EXCEPT !.out = saved.out, !.st = saved.st, !.safe = saved.safe, !.th = <<Tail(t)>> \o Tail(m.th)]]
+  \* (where the story last stood is put back as well: the function is not where a later jump "comes from")
+  [h EXCEPT !.m = [m EXCEPT !.out = saved.out, !.st = saved.st, !.safe = saved.safe, !.last = saved.last,
+                            !.th = <<Tail(t)>> \o Tail(m.th)]]
 
 \* ---------------------------------------------------------------- what the host sees
 Seen(h) ==
